@@ -5,7 +5,7 @@ from yamlpath import Processor
 from yamlpath.exceptions import YAMLPathException
 
 from vf import docs
-from vf.common import LOG, snapshot, plain
+from vf.common import LOG, snapshot, plain, cmap, cseq
 from vf.shard import shard, note
 from harness.qcommon import K, B, mkpath
 from harness import c01
@@ -233,6 +233,30 @@ QUICK_PURE = [("L3", "idx"), ("ML4", "slice"), ("AOHX", "at_gt"), ("AOH3", "p"),
               ("AOHD", "at_desc"), ("M3", "key_sw"), ("ML3", "el_ngt"), ("AOHD", "deep_p")]
 
 
+FANOUT = {
+    # name: (builder(a, b, c), dot path, slash path)
+    "list_search": (lambda a, b, c: cmap(("w", cseq(cmap(("l", cseq(a, c)), ("k", 1)), cmap(("l", cseq(b)), ("k", 2))))),
+                    "w.l[.=1]", "/w/l[.=1]"),
+    "aoh_attr_key": (lambda a, b, c: cmap(("w", cseq(cmap(("s", cmap(("v", cseq(cmap(("n", a), ("z", 5)))))), ("k", 1)),
+                                                      cmap(("s", cmap(("v", cseq(cmap(("n", b), ("z", c)))))), ("k", 2))))),
+                     "w.s.v[n=1].z", "/w/s/v[n=1]/z"),
+    "hash_wild": (lambda a, b, c: cmap(("w", cseq(cmap(("h", cmap(("p", a)))), cmap(("h", cmap()), ("k", b))))),
+                  "w.h.*", "/w/h/*"),
+    "deep_key": (lambda a, b, c: cmap(("w", cseq(cmap(("h", cmap(("x", cmap(("p", a)))))), cmap(("h", cmap(("y", b))))))),
+                 "w.h.**.p", "/w/h/**/p"),
+}
+
+
+def pure_fanout(name: str, slash: bool, a: int, b: int, c: int) -> bool:
+    """A path that fans out over an Array-of-Hashes and matches in SOME branches exists as a whole: reading it (required,
+    exists(), optional) must not touch the branches where the tail matches nothing."""
+    build, dot, fsl = FANOUT[name]
+    doc = build(a, b, c)
+    path = fsl if slash else dot
+    note(document=snapshot(doc), path=path)
+    return _pure(doc, path)
+
+
 def shards(tier, seed):
     out = []
     pairs = QUICK_PURE if tier == "quick" else c01.pairs("thorough")
@@ -251,6 +275,12 @@ def shards(tier, seed):
                          "pure_query(%r, %r, %s, %s, a, b, c, slash)" % (s, t, "i" if uses_i else "0", "j" if uses_j else "0"),
                          params, pre, family="pure/%s/%s" % (s, t), budget=900,
                          desc="read purity: %s x <focus>%s" % (docs.describe(s), tdesc)))
+    for name in FANOUT:
+        out.append(shard(PID, "fanout/%s" % name, "harness.c09", "pure_fanout(%r, slash, a, b, c)" % name,
+                         [("slash", "bool"), ("a", "int"), ("b", "int"), ("c", "int")],
+                         ["-2 <= a <= 2 and -2 <= b <= 2 and -2 <= c <= 2"], family="fanout", budget=900,
+                         desc="read purity where %s fans out over an Array-of-Hashes and its search / wildcard / deep tail matches "
+                              "in some branches only" % FANOUT[name][1]))
     colls = list(COLL) if tier == "thorough" else ["h_minus_g", "h_minus_gp", "hp_plus_gp", "h_and_g", "nested",
                                                    "l_minus_0", "l_slice_plus", "aoh_minus", "hoh_minus", "hs_minus_gs"]
     for name in colls:
